@@ -4,7 +4,7 @@
    that RFC 8200 / 791 (IHL = 5) / 768 / 7252 section 3-3.1 / 9260 section 3 prescribe), written
    independently of the model.  Only statements; proofs in theories/ParserRfc.v and ParserRfcSctp.v. *)
 From Coq Require Import ZArith List Bool.
-From MS Require Import PyBase Bits Schc Parsers RfcHeaders ParserRfc ParserRfcSctp.
+From MS Require Import PyBase Buffer Bits BufferAbs Schc Parsers RfcHeaders ParserRfc ParserRfcSctp SchcBytes ParserBytes BytesC08C17C18.
 Import ListNotations.
 Open Scope Z_scope.
 
@@ -59,6 +59,50 @@ Example c08_ex :
   match parse_coap (coap_encode m) with Ok (fs, n) => n =? zlen (coap_encode m) - 1 | _ => false end = true.
 Proof. vm_compute. repeat split; reflexivity. Qed.
 
+(* ---- the same at the byte level: the byte-level parsers (ParserBytes.v, compared raw with the code) applied to ANY canonical
+   left-padded Buffer whose bits are the encoded message return canonical field Buffers with exactly the RFC ids, positions and
+   bits (bfields_are bfs fs := Forall canon_bfield bfs /\ map (abs_field abs) bfs = fs), and the payload Buffer likewise ---- *)
+Theorem c08_ipv6_header_bytes h rest b : ipv6_wf h -> canon b -> bside b = LEFT -> abs b = ipv6_encode h ++ rest ->
+  exists bfs, bparse_ipv6 false b = Ok (bfs, 320) /\ bfields_are bfs (ipv6_fields h).
+Proof. exact (c08b_ipv6_header h rest b). Qed.
+Theorem c08_ipv4_header_bytes h rest b : ipv4_wf h -> canon b -> bside b = LEFT -> abs b = ipv4_encode h ++ rest ->
+  exists bfs, bparse_ipv4 false b = Ok (bfs, 160) /\ bfields_are bfs (ipv4_fields h).
+Proof. exact (c08b_ipv4_header h rest b). Qed.
+Theorem c08_udp_header_bytes h rest b : udp_wf h -> canon b -> bside b = LEFT -> abs b = udp_encode h ++ rest ->
+  exists bfs, bparse_udp false b = Ok (bfs, 64) /\ bfields_are bfs (udp_fields h).
+Proof. exact (c08b_udp_header h rest b). Qed.
+Theorem c08_coap_message_bytes m b : coap_wf m -> canon b -> bside b = LEFT -> abs b = coap_encode m ->
+  exists bfs, bparse_coap b = Ok (bfs, coap_header_len m) /\ bfields_are bfs (coap_fields m).
+Proof. exact (c08b_coap_message m b). Qed.
+Theorem c08_sctp_packet_bytes p b : sctp_wf p -> canon b -> bside b = LEFT -> abs b = sctp_encode p ->
+  exists bfs, bparse_sctp b = Ok (bfs, blen b) /\ bfields_are bfs (sctp_fields p).
+Proof. exact (c08b_sctp_packet p b). Qed.
+Theorem c08_stack_v6_bytes h u m b : ipv6_wf h -> udp_wf u -> coap_wf m ->
+  canon b -> bside b = LEFT -> abs b = ipv6_encode h ++ udp_encode u ++ coap_encode m ->
+  exists bfs bpl, bfactory IPv6_UDP_CoAP b = Ok (bfs, bpl) /\
+                  bfields_are bfs (ipv6_fields h ++ udp_fields u ++ coap_fields m) /\ bpayload_is bpl (coap_payload_bits m).
+Proof. exact (c08b_stack_v6 h u m b). Qed.
+Theorem c08_stack_v4_bytes h u m b : ipv4_wf h -> udp_wf u -> coap_wf m ->
+  canon b -> bside b = LEFT -> abs b = ipv4_encode h ++ udp_encode u ++ coap_encode m ->
+  exists bfs bpl, bfactory IPv4_UDP_CoAP b = Ok (bfs, bpl) /\
+                  bfields_are bfs (ipv4_fields h ++ udp_fields u ++ coap_fields m) /\ bpayload_is bpl (coap_payload_bits m).
+Proof. exact (c08b_stack_v4 h u m b). Qed.
+Theorem c08_predict_udp_bytes u m b : udp_wf u -> coap_wf m -> Z_of_bits (u_dport u) = 5683 ->
+  canon b -> bside b = LEFT -> abs b = udp_encode u ++ coap_encode m ->
+  exists bfs bpl, bfactory S_UDP b = Ok (bfs, bpl) /\
+                  bfields_are bfs (udp_fields u ++ coap_fields m) /\ bpayload_is bpl (coap_payload_bits m).
+Proof. exact (c08b_predict_udp u m b). Qed.
+Theorem c08_predict_v6_sctp_bytes h p b : ipv6_wf h -> sctp_wf p -> Z_of_bits (v6_nh h) = 132 ->
+  canon b -> bside b = LEFT -> abs b = ipv6_encode h ++ sctp_encode p ->
+  exists bfs bpl, bfactory S_IPv6 b = Ok (bfs, bpl) /\
+                  bfields_are bfs (ipv6_fields h ++ sctp_fields p) /\ bpayload_is bpl [] /\ blen bpl = 0.
+Proof. exact (c08b_predict_v6_sctp h p b). Qed.
+Theorem c08_predict_v4_sctp_bytes h p b : ipv4_wf h -> sctp_wf p -> Z_of_bits (v4_proto h) = 132 ->
+  canon b -> bside b = LEFT -> abs b = ipv4_encode h ++ sctp_encode p ->
+  exists bfs bpl, bfactory S_IPv4 b = Ok (bfs, bpl) /\
+                  bfields_are bfs (ipv4_fields h ++ sctp_fields p) /\ bpayload_is bpl [] /\ blen bpl = 0.
+Proof. exact (c08b_predict_v4_sctp h p b). Qed.
+
 Print Assumptions c08_ipv6_header.
 Print Assumptions c08_ipv4_header.
 Print Assumptions c08_udp_header.
@@ -71,3 +115,13 @@ Print Assumptions c08_predict_v4_udp_coap.
 Print Assumptions c08_predict_udp.
 Print Assumptions c08_predict_v6_sctp.
 Print Assumptions c08_predict_v4_sctp.
+Print Assumptions c08_ipv6_header_bytes.
+Print Assumptions c08_ipv4_header_bytes.
+Print Assumptions c08_udp_header_bytes.
+Print Assumptions c08_coap_message_bytes.
+Print Assumptions c08_sctp_packet_bytes.
+Print Assumptions c08_stack_v6_bytes.
+Print Assumptions c08_stack_v4_bytes.
+Print Assumptions c08_predict_udp_bytes.
+Print Assumptions c08_predict_v6_sctp_bytes.
+Print Assumptions c08_predict_v4_sctp_bytes.
